@@ -758,7 +758,17 @@ class ConsumerMdib(mdibbase.MdibBase):
                             new_descriptor_by_handle[descriptor_container.Handle] = descriptor_container
                         for state_container in report_part.State:
                             self._set_descriptor_container_reference(state_container)
-                            multi_key(state_container).add_object_no_lock(state_container)
+                            table = multi_key(state_container)
+                            if state_container.is_context_state:
+                                old_state = table.handle.get_one(state_container.Handle, allow_none=True)
+                            else:
+                                old_state = table.descriptor_handle.get_one(state_container.DescriptorHandle,
+                                                                            allow_none=True)
+                            if old_state is not None:
+                                # a left-over of an earlier descriptor with this handle (reports got lost):
+                                # replace it, otherwise the unique index rejects the state of the created descriptor
+                                table.remove_object_no_lock(old_state)
+                            table.add_object_no_lock(state_container)
                     elif modification_type == dmt.UPDATE:
                         updated_descriptor_containers = report_part.Descriptor
                         updated_state_containers = report_part.State
